@@ -320,3 +320,36 @@ M("C18", GA, """                    new_coeff = new_data.setdefault(new_bits, 0)
         return MultiVector(new_data, self.space)""", "product overwrites instead of accumulating (bilinearity)")
 M("C18", GA, """            data = {bits: coeff for bits, coeff in data.items()
                     if not is_zero(coeff)}""", """            pass""", "revert of fix 0178b1f (explicit zeros kept)")
+
+AL = "pymbolic/algorithm.py"
+M("C19", AL, """        x = x * x
+        n //= 2""", """        x = x * x
+        n -= 1""", "square-and-multiply halves wrongly")
+M("C19", AL, """        p, a, b = extended_euclidean(r, q)
+        return p, b, a""", """        p, a, b = extended_euclidean(r, q)
+        return p, a, b""", "Euclid returns unswapped cofactors")
+M("C19", AL, """                    sign*-2j*pi*n1/(N1*N2)""", """                    sign*2j*pi*n1/(N1*N2)""", "twiddle sign")
+M("C19", AL, """    return (1/len(x))*fft(x, sign=-1,""", """    return (1/(len(x)+1))*fft(x, sign=-1,""", "ifft normalisation")
+PL = "pymbolic/polynomial.py"
+M("C19", PL, """            quot += this_fac
+            rem -= this_fac * other""", """            quot += this_fac
+            rem -= this_fac""", "divmod subtracts this_fac instead of this_fac*other")
+M("C19", PL, """                uniq_result.pop()
+                last_exp = None""", """                uniq_result.pop()""", "revert of fix 49e66f3 (_sort_uniq)")
+M("C19", PL, """    def __rsub__(self, other):
+        return (-self)+other""", """    def __rsub__(self, other):
+        return (-other)+self""", "revert of fix 115b0c3 (__rsub__)")
+M("C19", PL, """
+    __bool__ = __nonzero__
+""", """
+""", "revert of fix 729f917 (__bool__)")
+M("C19", "pymbolic/mapper/__init__.py", """        data = tuple((exp, self.rec(coeff, *args, **kwargs))
+                                  for exp, coeff in expr.data)""", """        data = ((exp, self.rec(coeff, *args, **kwargs))
+                                  for exp, coeff in expr.data)""", "revert of fix c0518c0 (map_polynomial generator)")
+M("C19", "pymbolic/mapper/evaluator.py", """            result = (result+coeff)*ev_base**(exp-next_exp)""",
+  """            result = (result+coeff)*ev_base**(exp-next_exp+0*i)+0""", "equivalent Horner (must stay silent)", expect="MISSED")
+M("C19", "pymbolic/mapper/evaluator.py", """                next_exp = rev_data[i+1][0]
+            else:
+                next_exp = 0""", """                next_exp = rev_data[i+1][0]
+            else:
+                next_exp = rev_data[0][0]*0+ (1 if exp > 2 else 0)""", "Horner wrong exponent gap for lowest term")
